@@ -103,6 +103,11 @@ def run(ck, F):
         heads += more
         known |= {h[0] for h in more}
     _cleared_only_at_entry(ck, F, g, heads)
+    # "every named component of every reachable file": what an import returns is merged as a whole (the obligations of C02.R5 about
+    # the merge function, decided here as well: a merge that filters or de-duplicates by a partial key loses components of a file)
+    from rules import c02 as C02
+    from rules import c04 as C04
+    C02.rule_merge_keeps_components(C04._Sub(ck, "R2", lambda key: key.startswith(("merge-keeps:", "merge", "floor:")), only_rules=("R5",)), F)
     parsers = [b for b in scans.bodies(F.lib) if "yaserde_tests" not in b["path"] and M.Body(b).calls_to(PARSE)]
     ck.floor("R1", "functions parsing a document", len(parsers), 1)
     if not heads:
